@@ -14,6 +14,8 @@ import (
 	"os"
 	"path/filepath"
 	"strings"
+	"sync"
+	"sync/atomic"
 	"testing"
 	"time"
 
@@ -242,6 +244,11 @@ func c08Config(rep *verifkit.Report, rng *rand.Rand, up *sysUpstream, ci int) {
 		if rng.Intn(10) == 0 {
 			q.Qtype = dns.TypeAAAA
 		}
+		if !refuseAny && q.Via != "doh" && rng.Intn(8) == 0 {
+			// With ANY-refusal off a type-ANY query is a query like any other.
+			q.Qtype = dns.TypeANY
+			rep.Class("queries_of_type_any_with_refusal_off")
+		}
 		// Model.
 		lower := strings.ToLower(name)
 		nameQlIgn := strings.Contains(lower, ".qlign-") || strings.Contains(lower, ".bothign-") || strings.HasPrefix(lower, "plain-qlign-")
@@ -373,6 +380,55 @@ func c08Config(rep *verifkit.Report, rng *rand.Rand, up *sysUpstream, ci int) {
 			rep.Class("late_client_flag_checks")
 		} else {
 			rep.Inconcl(fmt.Sprintf("clients/update: %d %v %s", st, aerr, b))
+		}
+	}
+
+	// A name is put on the statistics ignore list WHILE queries for it are
+	// being served; once the update has returned and the traffic has stopped,
+	// further queries for that very name must not be counted any more.  The
+	// window is narrow, so the scenario is repeated a few times.
+	for attempt := 0; attempt < 6; attempt++ {
+		host := fmt.Sprintf("race%d-%s.verif.example", attempt, tag)
+		var rstop atomic.Bool
+		var rwg sync.WaitGroup
+		for g := 0; g < 8; g++ {
+			rwg.Add(1)
+			go func(g int) {
+				defer rwg.Done()
+				for !rstop.Load() {
+					_, _ = sysQuery(in, fmt.Sprintf("127.0.4.%d", 10+g), false, host, dns.TypeA, 3*time.Second)
+				}
+			}(g)
+		}
+		time.Sleep(time.Duration(20+rng.Intn(40)) * time.Millisecond)
+		st, _, aerr := in.API("PUT", "/control/stats/config/update", map[string]any{"enabled": true, "interval": 86400000, "ignored": append(append([]string{}, statsIgnore...), "||"+host+"^")})
+		time.Sleep(30 * time.Millisecond)
+		rstop.Store(true)
+		rwg.Wait()
+		if aerr != nil || st != 200 {
+			break
+		}
+		total := func() int {
+			_, b, _ := in.API("GET", "/control/stats", nil)
+			var v struct {
+				N int `json:"num_dns_queries"`
+			}
+			_ = json.Unmarshal(b, &v)
+
+			return v.N
+		}
+		t1 := total()
+		for k := 0; k < 4; k++ {
+			_, _ = sysQuery(in, "127.0.4.1", k%2 == 1, host, dns.TypeA, 3*time.Second)
+		}
+		t2 := total()
+		rep.Eval(true, fmt.Sprintf("%d|ignore-list-updated-under-traffic|%d", ci, attempt))
+		rep.Class("ignore_list_updates_under_traffic")
+		if t2 != t1 {
+			rep.Violate("counted-after-name-was-ignored-under-traffic", fmt.Sprintf("after the statistics ignore list was extended by the name while it was being queried, %d further queries for it were still counted", t2-t1),
+				map[string]any{"configuration": view, "host": host, "total_before": t1, "total_after": t2})
+
+			break
 		}
 	}
 
